@@ -20,8 +20,15 @@ from .. import reps as P
 from ..desc import HIDDEN, NONE, mk, mkobs, mkstate, sdesc, tup
 from ..pool import pmap
 
-TYPE_INDEX = {t: i for i, t in enumerate(['NoneGridObject', 'Hidden', 'Floor', 'Wall', 'Exit', 'Door', 'Key', 'MovingObstacle',
-                                          'Box', 'Telepod', 'Beacon'])}
+def _type_index():
+    # the type index is the position in the library's registration order (a new registered type may legitimately
+    # shift it, so it is read from the registry list rather than hard-coded)
+    from gym_gridverse.grid_object import grid_object_registry
+
+    return {name: i for i, name in enumerate(grid_object_registry.names())}
+
+
+TYPE_INDEX = _type_index()
 
 
 def image(arrays):
@@ -127,6 +134,24 @@ def judge_space(kind, shape, types, colours, repname, devs):
                 return n, 'a copy of a member has a different representation', m
         buckets[img] = ek
         eqs[ek] = img
+        # equal members hash alike even when one of them got there through in-place mutation (the library's own
+        # transition functions open doors by assigning door.state): hash first, mutate, compare with a fresh build
+        doors = [(yy, xx) for yy in range(H) for xx in range(W) if rows[yy][xx][0] == 'Door' and rows[yy][xx][1] != 0]
+        if doors and kind == 'state':
+            from gym_gridverse.grid_object import Door
+
+            hash(obj), hash(obj.grid)
+            cp = fast_copy(obj)
+            yy, xx = doors[0]
+            for target in (obj, cp):
+                target.grid[yy, xx].state = Door.Status.OPEN
+            opened = (P.with_cell(rows, (yy, xx), ('Door', 0, rows[yy][xx][2], None)), y, x, h, held)
+            fresh = build(opened)
+            for target, how in ((obj, 'in place'), (cp, 'on a copy')):
+                if not (target == fresh):
+                    return n, f'a state mutated {how} (door opened) does not equal the freshly built equal state', m
+                if hash(target) != hash(fresh) or hash(target.grid) != hash(fresh.grid):
+                    return n, f'equal states hash differently after a door was opened {how} (stale cached hash?)', m
     return n, None, None
 
 
